@@ -220,7 +220,7 @@ def gen_wide_session(rng):
     f = sess.f
     fmt = 5
     W = rng.choice([2**31 + 8, 2**32 + 16, 2**32 + 16])
-    K = rng.choice([2, 3])
+    K = rng.choice([3, 4, 5])
     xt = rng.choice([1, 3, 4])
     three = rng.chance(1, 3)
     sess.emit('* create %d %d 1' % (f, fmt), kind='create')
@@ -249,7 +249,7 @@ def gen_wide_session(rng):
         c0 = rng.choice([2**31 - 2, 2**31 - 1, 2**32 - 2, W - 4, 5]) 
         c0 = min(c0, W - 4)
         start = [0] * v.nd; count = [1] * v.nd
-        start[0] = rng.below(K - 1); count[0] = 2
+        start[0] = rng.range(1, K - 2); count[0] = 2      # non-zero start in the slower dimension
         start[wpos] = c0; count[wpos] = rng.range(2, 4)
         if three:
             other = [i for i in range(v.nd) if i not in (0, wpos)][0]
